@@ -51,6 +51,12 @@ impl LocalMetadataClient {
         }
     }
 
+    /// Compaction level of a registered chunk (read-only observer for the simulation checks).
+    #[cfg(cardinalsin_verif)]
+    pub fn verif_chunk_level(&self, path: &str) -> Option<u32> {
+        self.chunk_levels.get(path).map(|l| *l)
+    }
+
     /// Get the hour bucket for a timestamp (nanoseconds)
     fn hour_bucket(timestamp: i64) -> i64 {
         // Convert to hours and back to get bucket start
